@@ -2,7 +2,8 @@ SPECIFICATION Spec
 CONSTANTS
   Scheds <- SchedsSmall
   Blocking = {2}
-  MaxNow = 6
+  Panicking = {}
+  MaxNow = 5
   MaxStep = 3
   MaxOps = 4
   Chain = "none"
